@@ -19,7 +19,7 @@ RULE = ("one case = one generated real directory tree (depth <= 5 below the case
         "projects made by signac.init_project (some with non-canonical config text, project document, state point cache, "
         "or without workspace directory), jobs made by open_job().init(), projects nested in job directories (the job "
         "directory itself or a sub-directory) and in plain sub-directories, job directories that are symbolic links "
-        "(relative / absolute target) to a directory stored elsewhere, stray links, files; names that merely CONTAIN 32 hex characters (64/40/33-hex, run_<md5>, <id>.bak) as sub-directories of jobs, plain directories and projects and as queried leaves (inside the quantifier: they are not 32-hex-named); a fraction of trees leaves the "
+        "(relative / absolute target) to a directory stored elsewhere, stray links, files; projects whose OWN directory is called 'workspace' (stand-alone or below a plain sub-directory of another project); directories that hold '.signac/' but no '.signac/config' (dissolved project with its cache left behind, half-finished init) inside projects, inside jobs and outside every project, each queried with search=False and init_project too; names that merely CONTAIN 32 hex characters (64/40/33-hex, run_<md5>, <id>.bak) as sub-directories of jobs, plain directories and projects and as queried leaves (inside the quantifier: they are not 32-hex-named); a fraction of trees leaves the "
         "layout hypothesis (exact 32-hex names outside workspaces, legacy signac.rc projects, foreign schema "
         "versions) and is compared with the model only.  Every directory of the tree (also through links), plus "
         "non-existent paths, is queried with get_project(search=True/False), get_job, init_project as absolute path, "
@@ -50,10 +50,19 @@ def gen_children(rng, depth, budget, odd):
             break
         budget[0] -= 1
         r = rng.random()
-        if name == "workspace" and r < 0.5:
-            r = 0.9  # a plain directory called workspace (no project above it)
-        if r < 0.38 and depth <= 4:
+        if name == "workspace":
+            # a directory called workspace that is NOT the workspace of a project above it (callers drop the name
+            # from the children of a project): a plain directory, or a project whose OWN directory has that name
+            # (stand-alone x/workspace, or outer/analysis/workspace below a plain sub-directory of another project)
+            r = 0.1 if r < 0.45 else 0.7
+        if r < 0.36 and depth <= 4:
             out.append(gen_project(rng, name, depth, budget, odd))
+        elif r < 0.44 and depth <= 4:
+            # a directory that holds `.signac/` but NO `.signac/config`: a nested project dissolved by deleting its
+            # configuration (state point cache left behind), or an init_project that failed after the mkdir.
+            # It is a plain directory for discovery.
+            out.append({"k": "dissolved", "name": name, "left": rng.choice(["cache", "empty"]),
+                        "ch": [c for c in gen_children(rng, depth + 1, budget, False) if c["name"] != ".signac"]})
         elif r < 0.85:
             e = {"k": "dir", "name": name, "ch": gen_children(rng, depth + 1, budget, odd)}
             out.append(e)
@@ -96,7 +105,8 @@ def gen_project(rng, name, depth, budget, odd):
                 j["k"] = "proj"   # the job directory is itself a project
                 j["jobs"] = [{"a": b, "k": "dir", "ch": [], "link": None} for b in range(rng.choice([0, 1, 2]))]
             if depth + 3 <= 5 and rng.random() < 0.6:
-                j["ch"] = gen_children(rng, depth + 3, budget, odd)
+                j["ch"] = [c for c in gen_children(rng, depth + 3, budget, odd)
+                           if not (j["k"] == "proj" and c["name"] == "workspace")]
             if rng.random() < 0.25:
                 j["link"] = rng.choice(["rel", "abs"])
             jobs.append(j)
@@ -171,6 +181,19 @@ FIXED = [
            ch=[{"k": "dir", "name": HEXISH[1], "ch": []}]),
         {"k": "dir", "name": "plain", "ch": [{"k": "dir", "name": n, "ch": []} for n in HEXISH[:3]]}]},
      "links": [], "qseed": 6, "odd": False},
+    # a project whose OWN directory is called `workspace` (stand-alone, and below a plain sub-directory of another
+    # project), queried strictly below it; directories holding `.signac/` without a config (dissolved nested
+    # project with its cache left behind, half-finished init) inside a project, inside a job and outside every project
+    {"top": {"k": "dir", "name": "", "ch": [
+        _p("workspace", jobs=[_j(0, ch=[{"k": "dir", "name": "sub", "ch": []}]), _j(1, link="rel")],
+           ch=[{"k": "dir", "name": "sub", "ch": [{"k": "dir", "name": "deeper", "ch": []}]}]),
+        _p("outer", jobs=[_j(0, ch=[{"k": "dissolved", "name": "was", "left": "cache", "ch": []}])],
+           ch=[{"k": "dir", "name": "analysis", "ch": [
+                   _p("workspace", jobs=[_j(3)], ch=[{"k": "dir", "name": "data", "ch": []}], cfgv="nospace")]},
+               {"k": "dissolved", "name": "gone", "left": "cache", "ch": [{"k": "dir", "name": "sub", "ch": []}]},
+               {"k": "dissolved", "name": "halfinit", "left": "empty", "ch": []}]),
+        {"k": "dir", "name": "noproj", "ch": [{"k": "dissolved", "name": "d2", "left": "empty", "ch": []}]}]},
+     "links": [], "qseed": 7, "odd": False},
     # project without workspace directory, empty project
     {"top": {"k": "dir", "name": "", "ch": [_p("nows", nows=True, cfgv="extra"), _p("empty", cfgv="quoted")]},
      "links": [], "qseed": 3, "odd": False},
@@ -236,6 +259,13 @@ def build_entry(parent, e, store_root):
             fh.write(b"x")
     elif e["k"] == "proj":
         build_project_at(path, e, store_root)
+    elif e["k"] == "dissolved":
+        os.makedirs(os.path.join(path, ".signac"), exist_ok=True)
+        if e["left"] == "cache":
+            with open(os.path.join(path, ".signac", "statepoint_cache.json.gz"), "wb") as fh:
+                fh.write(b"\x1f\x8b\x08\x00stale")
+        for c in e["ch"]:
+            build_entry(path, c, store_root)
     elif e["k"] == "legacy":
         os.makedirs(path, exist_ok=True)
         with open(os.path.join(path, "signac.rc"), "wb") as fh:
@@ -426,8 +456,21 @@ def make_queries(root, rng, fixed):
         targets.append(os.path.join(d, ghost_id) if d else ghost_id)
         if os.path.basename(d) == "workspace" or True:
             targets.append(os.path.join(d, ghost_id, "sub") if d else os.path.join(ghost_id, "sub"))
+    def special(t):
+        """a directory holding .signac/ without a configuration, or a path strictly below a project whose own
+        directory is called workspace (both are always queried)."""
+        ab = os.path.join(root, t) if t else root
+        if os.path.isdir(os.path.join(ab, ".signac")) and not os.path.isfile(os.path.join(ab, ".signac", "config")):
+            return True
+        parts = t.split("/") if t else []
+        return any(parts[i] == "workspace" and os.path.isfile(os.path.join(root, *parts[:i + 1], ".signac", "config"))
+                   for i in range(len(parts) - 1))
+
     if len(targets) > 14 and not fixed:
-        keep = set(rng.sample(range(len(targets)), 14))
+        sp = [i for i, t in enumerate(targets) if special(t)]
+        keep = set(sp if len(sp) <= 6 else rng.sample(sp, 6))
+        rest = [i for i in range(len(targets)) if i not in keep]
+        keep |= set(rng.sample(rest, 14 - len(keep)))
         targets = [t for i, t in enumerate(targets) if i in keep]
     for t in targets:
         ab = os.path.join(root, t) if t else root
@@ -457,9 +500,12 @@ def make_queries(root, rng, fixed):
             cwd = rng.choice(phys_dirs)
             cw = os.path.join(root, cwd) if cwd else root
             qs.append((("I", None), cwd, os.path.relpath(ab, cw)))
-    # init_project on a few non-projects / legacy / non-existent paths
+    # init_project on a few non-projects / legacy / non-existent paths, and on the directories that hold a
+    # `.signac/` without configuration (re-init of a dissolved project, retry of a failed init)
     others = [t for t in targets if not os.path.isfile(os.path.join(root, t, ".signac", "config"))]
-    for t in rng.sample(others, min(3, len(others))):
+    chosen = rng.sample(others, min(3, len(others)))
+    chosen += [t for t in others if t not in chosen and os.path.isdir(os.path.join(root, t, ".signac"))][:3]
+    for t in chosen:
         qs.append((("I", None), None, os.path.join(root, t) if t else root))
     return qs
 
